@@ -20,6 +20,7 @@
 #include <cstring>
 #include <string>
 #include <utility>
+#include <typeinfo>
 #include <vector>
 #include <sys/mman.h>
 
@@ -99,6 +100,7 @@ public:
   const vsbx::Library* lib = nullptr;
   void* callback_unique_keys[NCB]{ 0 };
   void* callbacks[NCB]{ 0 };
+  const std::type_info* callback_sigs[NCB]{ 0 }; // signature (sandbox ABI) each entry point was registered with
   char cbdesc[NCB]{ 0 }; // &cbdesc[i]: application-side address of callback slot i
   thread_local static inline rlbox_vsbx_thread_data<Abi, K, NCB> thread_data{ 0, 0 };
 
@@ -116,6 +118,9 @@ public:
     if (rep >= CB_BASE && rep < CB_BASE + NCB) {
       uint32_t n = static_cast<uint32_t>(rep - CB_BASE);
       thread_data.last_callback_invoked = n;
+      // typed indirect call: the guest's idea of the signature must be the one the entry point was registered with
+      auto* sig = thread_data.sandbox->callback_sigs[n];
+      detail::dynamic_check(sig != nullptr && *sig == typeid(T_Ret(T_Args...)), "vsbx: indirect call signature mismatch (trap)");
       auto f = reinterpret_cast<T_Func>(thread_data.sandbox->callbacks[n]);
       return f(args...);
     }
@@ -275,6 +280,7 @@ protected:
       if (callback_unique_keys[i] == nullptr) {
         callback_unique_keys[i] = key;
         callbacks[i] = callback;
+        callback_sigs[i] = &typeid(T_Ret(T_Args...));
         return static_cast<T_PointerType>(CB_BASE + i);
       }
     }
@@ -292,7 +298,7 @@ protected:
   inline void impl_unregister_callback(void* key)
   {
     for (uint32_t i = 0; i < NCB; i++)
-      if (callback_unique_keys[i] == key) { callback_unique_keys[i] = nullptr; callbacks[i] = nullptr; break; }
+      if (callback_unique_keys[i] == key) { callback_unique_keys[i] = nullptr; callbacks[i] = nullptr; callback_sigs[i] = nullptr; break; }
   }
 };
 
